@@ -249,6 +249,11 @@ class TextGen:
     def link_macro(self):
         rng, case = self.rng, self.case
         targets = case.link_targets
+        if self.code is not None and self.code.id != 'main':
+            # the writer of a secondary disassembly registers a custom memory map's path, title and link text only if that
+            # map would list entries of the secondary skool file; otherwise #LINK fails ("Unknown page ID", or KeyError
+            # for a blank link text) - a failure of the tool, not a link, so not generated
+            targets = [t for t in targets if t[0] not in case.custom_map_ids]
         if not targets:
             return None
         page_id, anchors = rng.choice(targets)
@@ -257,6 +262,10 @@ class TextGen:
             anchor = '#' + str(rng.choice(anchors))
             case.features.add('LINK:anchor')
         text = rng.choice(['', 'page', 'the map', 'details here'])
+        if anchor and page_id in case.list_box_pages and text == '':
+            # skool2html raises ValueError for a blank link text with an anchor on a ListItems/BulletPoints box page
+            # (expand_link unpacks 3 fields from 4-field entries): a crash, not a link, so outside this property
+            text = 'log entry'
         case.features.add('LINK')
         return '#LINK(%s%s)(%s)' % (page_id, anchor, text)
 
@@ -287,12 +296,12 @@ class TextGen:
         if r < 0.55:
             return '#SCR%d,%d,%d,%d,%d(%s)' % (rng.choice([1, 2]), rng.randrange(28), rng.randrange(20), rng.randint(1, 4), rng.randint(1, 4), fname)
         if r < 0.7:
-            return '#FONT:(%s)%d(%s)' % (rng.choice(['A', 'Hi', 'xyz']), rng.choice([15616, 32768]), fname)
+            return '#FONT%d(%s)(%s)' % (rng.choice([15616, 32768]), rng.choice(['A', 'Hi', 'xyz']), fname)
         if r < 0.9:
             return '#UDGARRAY%d,%d,%d(%d-%d-8)(%s)' % (rng.choice([1, 2]), rng.randrange(128), rng.choice([1, 2]), 32768, 32768 + 8 * rng.randint(1, 3), fname)
         case.features.add('image:animated')
         fr = 'f%d' % rng.randrange(1000)
-        return '#UDG32768,6(*%sa)#UDG32776,5(*%sb)#UDGARRAY*%sa;%sb,25(%s)' % (fr, fr, fr, fr, fname)
+        return '#UDG32768,6(*%sa)#UDG32776,5(%s*%sb)#FRAMES(%sa,25;%sb)(%s)' % (fr, fr, fr, fr, fr, fname)
 
     def audio_macro(self):
         rng, case = self.rng, self.case
@@ -300,7 +309,7 @@ class TextGen:
         if rng.random() < 0.2:
             name = '/' + rng.choice(['snd', 'a/b']) + '/' + name
         case.features.add('audio')
-        return '#AUDIO(%s.wav)(%s)' % (name, ','.join(str(rng.choice([100, 500, 1000])) for _ in range(rng.randint(2, 6))))
+        return '#AUDIO0(%s.wav)(%s)' % (name, ','.join(str(rng.choice([100, 500, 1000])) for _ in range(rng.randint(2, 6))))
 
     def html_macro(self):
         self.case.features.add('external-link')
@@ -573,6 +582,7 @@ def gen_case(rng):
         f.add('MemoryMap:custom')
     for map_id, members in map_members.items():
         link_targets.append((map_id, members))
+    case.custom_map_ids = set(custom_map_ids)
 
     box_pages = {}          # page id -> (path, [anchors])
     for page_id, (sprefix, default) in BOX_DEFAULTS.items():
@@ -588,6 +598,7 @@ def gen_case(rng):
         if rng.random() < 0.5:
             paths[pid] = newdir() + '/notes.html'
         box_pages[pid] = (paths.get(pid, 'Notes.html'), ['n1', 'n2'], 'Note', 'bullets')
+    case.list_box_pages = {pid for pid, v in box_pages.items() if v[3] != 'para'}
     for pid, (p, anchors, sprefix, kind) in box_pages.items():
         link_targets.append((pid, anchors))
         f.add('box-page:' + kind)
@@ -746,7 +757,8 @@ def gen_case(rng):
     if rng.random() < 0.2:
         argv += ['-T', rng.choice(['dark', 'green', 'nosuchtheme'])]
         f.add('-T')
-    if rng.random() < 0.12:
+    if rng.random() < 0.12 and css_path == '.':
+        # (-j into a StyleSheetPath directory that does not exist yet fails with FileNotFoundError - not a link problem)
         argv += ['-j', rng.choice(['all.css', 'joined-styles.css'])]
         f.add('-j')
     js_needed = set()
@@ -771,9 +783,10 @@ def gen_case(rng):
         game['Logo'] = '#UDG32768,7,2(logo)' if rng.random() < 0.5 else '#SCR1,0,0,3,1(logo|The Game)'
         f.add('Logo')
     if rng.random() < 0.2:
-        game['Copyright'] = rt.text(0.8, 1, 3, images=False)
+        # [Game] values are expanded without a current directory: link and image macros are not usable there
+        game['Copyright'] = rt.words(1, 4) + ' ' + rt.html_macro()
     if rng.random() < 0.1:
-        game['Release'] = 'The release ' + (rt.link_macro() or '')
+        game['Release'] = 'The release ' + rt.words(1, 2)
     if rng.random() < 0.1:
         config['Expand'] = '#DEF(#HOMELINK #LINK(GameIndex)(home))'
     if game:
@@ -835,9 +848,11 @@ def gen_case(rng):
                 page = posixpath.normpath(posixpath.join(code_paths[code.id], codefile_fmt.format(address=e.addr)))
             ents.append({'addr': e.addr, 'ctl': e.ctl, 'page': page, 'ins': [i.addr for i in e.ins],
                          'mid': [i.addr for i in e.ins if i.mid], 'points': [i.addr for i in e.ins if i.ctl == '*']})
-        model['codes'][code.id] = {'entries': ents, 'index': index_paths.get(code.id)}
+        model['codes'][code.id] = {'entries': ents, 'index': index_paths.get(code.id), 'single': single_paths[code.id],
+                                   'own': sorted(code.ins_map()),
+                                   'remote': {str(a): oid for oid, d in code.remote.items() for a in d}}
     for map_id, members in map_members.items():
-        model['maps'][map_id] = {'path': map_paths[map_id], 'addrs': members}
+        model['maps'][map_id] = {'path': map_paths[map_id], 'addrs': members, 'main': True}
     for oid in oids:
         c = all_by_code[oid]
         if c.live_entries():
